@@ -5,6 +5,7 @@
    tied to the implementation by the correspondence run. *)
 From Coq Require Import ZArith QArith List.
 From PV Require Import Lib.Py Model.Ops Model.Arrays Proofs.C13.
+From PV Require Import Model.CseCells Proofs.C13Cells.
 From PV Require Gen.excelutil Gen.arrayfit.
 Import ListNotations.
 Open Scope Z_scope.
@@ -132,3 +133,186 @@ Theorem C13_fun_no_array : forall (f : list pyval -> res pyval) (idx : nat -> bo
   cse_wrapper f idx args = f args.
 Proof. exact fun_no_array. Qed.
 Print Assumptions C13_fun_no_array.
+
+(* ==== the CSE pipeline: how an array formula reaches its member cells
+   (Model/CseCells.v, transcribed from excelwrapper.load_array_formulas /
+   cell_to_formula, excelcompiler._evaluate_range / _evaluate, excelformula.eval_func;
+   INDEX = Model/Lookup.v X_index).  [cse_member h w result i j] is the value of
+   the member stamped (i, j) of a CSE range of size h x w whose formula's code
+   returns [result]; [shown e] = a blank is 0, then _evaluate's store. ==== *)
+
+(* each member cell shows its own element: for EVERY result shape R x C, target
+   h x w and member (i, j) inside the target — the result's element there (a
+   single row / column repeated), #N/A where the result does not reach *)
+Theorem C13_member_shows_own_element : forall rows R C h w i j,
+  length rows = R -> (1 <= R)%nat -> (1 <= C)%nat -> rectangular C rows ->
+  1 <= i <= h -> 1 <= j <= w ->
+  (forall x, elem2 rows (if Nat.eqb R 1 then O else pos i) (if Nat.eqb C 1 then O else pos j) = Some x ->
+             cse_member h w (matrix rows) i j = shown x)
+  /\ ((R <> 1%nat /\ Z.of_nat R < i) \/ (C <> 1%nat /\ Z.of_nat C < j) ->
+      cse_member h w (matrix rows) i j = Ok excelutil.c_NA_ERROR).
+Proof. exact member_shows_own_element. Qed.
+Print Assumptions C13_member_shows_own_element.
+
+(* the same through fit_elem in one equation *)
+Theorem C13_member_fit_elem : forall rows C h w i j,
+  rows <> [] -> (1 <= C)%nat -> rectangular C rows -> 1 <= i <= h -> 1 <= j <= w ->
+  cse_member h w (matrix rows) i j = shown (fit_elem rows (pos i) (pos j)).
+Proof. exact member_fit_elem. Qed.
+Print Assumptions C13_member_fit_elem.
+
+(* a scalar result is shown by every member (a blank as 0) *)
+Theorem C13_member_scalar : forall v h w i j,
+  scalar_like v = true -> 1 <= i <= h -> 1 <= j <= w ->
+  cse_member h w v i j = Ok (if is_blank v then VInt 0 else v).
+Proof. exact member_scalar. Qed.
+Print Assumptions C13_member_scalar.
+
+(* what a cell shows of a scalar element *)
+Theorem C13_shown_scalar : forall e, scalar_like e = true ->
+  shown e = Ok (if is_blank e then VInt 0 else e).
+Proof. exact shown_scalar. Qed.
+Print Assumptions C13_shown_scalar.
+
+(* the range itself evaluates to the fitted h x w matrix *)
+Theorem C13_range_value : forall rows C h w,
+  rows <> [] -> (1 <= C)%nat -> rectangular C rows -> 1 <= h -> 1 <= w ->
+  exists out, cse_range_value h w (matrix rows) = Ok (matrix out)
+              /\ length out = Z.to_nat h /\ rectangular (Z.to_nat w) out
+              /\ forall i j, (i < Z.to_nat h)%nat -> (j < Z.to_nat w)%nat ->
+                             elem2 out i j = Some (fit_elem rows i j).
+Proof. exact range_value_matrix. Qed.
+Print Assumptions C13_range_value.
+
+(* a reference range of one cell is an ordinary formula cell: it shows the
+   result's element (1, 1) as it is (a blank SCALAR result is 0) *)
+Theorem C13_single_cell_target : forall r0 rest e row0,
+  r0 = e :: row0 -> formula_cell (matrix (r0 :: rest)) = Ok e.
+Proof. exact single_cell_target. Qed.
+Print Assumptions C13_single_cell_target.
+Theorem C13_single_cell_scalar : forall v, scalar_like v = true ->
+  formula_cell v = Ok (if is_blank v then VInt 0 else v).
+Proof. exact single_cell_scalar. Qed.
+Print Assumptions C13_single_cell_scalar.
+
+(* the sheet side and the value side together: every cell (row, col) that
+   load_array_formulas writes for the reference range with top left (r0, c0)
+   and size h x w lies in that range, its =index(range, i, j) refers to the whole
+   range, and it shows the fitted element at its own offset *)
+Theorem C13_member_cells : forall r0 c0 h w rows C row col s,
+  rows <> [] -> (1 <= C)%nat -> rectangular C rows ->
+  In ((row, col), s) (load_members r0 c0 h w) ->
+  member_range row col s = (c0, r0, c0 + w - 1, r0 + h - 1) /\
+  r0 <= row < r0 + h /\ c0 <= col < c0 + w /\
+  cse_member h w (matrix rows) (fst (member_index s)) (snd (member_index s))
+  = shown (fit_elem rows (Z.to_nat (row - r0)) (Z.to_nat (col - c0))).
+Proof. exact member_cells. Qed.
+Print Assumptions C13_member_cells.
+
+(* … and every cell of the reference range is written, with its own offset *)
+Theorem C13_every_cell_is_member : forall r0 c0 h w row col,
+  r0 <= row < r0 + h -> c0 <= col < c0 + w ->
+  In ((row, col), (row - r0 + 1, col - c0 + 1, h, w)) (load_members r0 c0 h w).
+Proof. exact every_cell_is_member. Qed.
+Print Assumptions C13_every_cell_is_member.
+
+(* all member cells together: the h x w matrix of the fitted elements, blanks as 0 *)
+Theorem C13_members_matrix : forall rows C h w,
+  rows <> [] -> (1 <= C)%nat -> rectangular C rows -> all_scalar rows -> 1 <= h -> 1 <= w ->
+  exists M, cse_members h w (matrix rows) = Ok (matrix M)
+            /\ length M = Z.to_nat h /\ rectangular (Z.to_nat w) M
+            /\ forall i j, (i < Z.to_nat h)%nat -> (j < Z.to_nat w)%nat ->
+                           elem2 M i j = Some (blank0 (fit_elem rows i j)).
+Proof. exact members_matrix. Qed.
+Print Assumptions C13_members_matrix.
+
+(* which range of the sheet is an array formula's range (_OpxRange.__new__):
+   the reference range read back is; a range not starting at member (1, 1) is
+   evaluated cell by cell *)
+Theorem C13_range_formula_own : forall f h w, 1 <= h -> 1 <= w ->
+  range_formula (sheet_rows f h w) = Some f.
+Proof. exact range_formula_own. Qed.
+Print Assumptions C13_range_formula_own.
+Theorem C13_range_formula_inner : forall f i j h w row rest,
+  (i, j) <> (1, 1) -> range_formula ((Member f (i, j, h, w) :: row) :: rest) = None.
+Proof. exact range_formula_inner. Qed.
+Print Assumptions C13_range_formula_inner.
+
+(* PARTIAL: evaluating the reference range gives at every position what the
+   member cell there shows (a blank as 0 in the cell).  The full statement —
+   EVERY range of the sheet shows its cells' own values — is refuted:
+   Refuted/C13_adjacent_ranges.v (a range running from one array formula's top
+   left into an adjacent array formula with the same text is evaluated as ONE
+   array formula) *)
+Theorem C13_range_shows_members_partial : forall f rows C h w,
+  rows <> [] -> (1 <= C)%nat -> rectangular C rows -> all_scalar rows -> 1 <= h -> 1 <= w ->
+  range_formula (sheet_rows f h w) = Some f /\
+  exists out M, cse_range_value h w (matrix rows) = Ok (matrix out)
+                /\ cse_members h w (matrix rows) = Ok (matrix M)
+                /\ length M = Z.to_nat h /\ rectangular (Z.to_nat w) M
+                /\ forall i j, (i < Z.to_nat h)%nat -> (j < Z.to_nat w)%nat ->
+                     exists e, elem2 out i j = Some e /\ elem2 M i j = Some (blank0 e).
+Proof. exact range_shows_members_partial. Qed.
+Print Assumptions C13_range_shows_members_partial.
+
+(* ---- the whole clause for operators: the formula =l o r entered over an
+   h x w target (no scalar operand is an error).  The member stamped (i, j)
+   shows the scalar operator's value x on the operands' elements at the
+   broadcast indices (x itself; only the text "#EMPTY!", pycel's blank marker,
+   would be shown as 0), #N/A outside the broadcast shape R x C *)
+Theorem C13_formula_op_member : forall l o r a b R C res h w i j,
+  to_nd l = Ok a -> to_nd r = Ok b -> bshape a b = Some (R, C) ->
+  (scalar_like l = true -> in_error_codes l = Ok false) ->
+  (scalar_like r = true -> in_error_codes r = Ok false) ->
+  op_fixup l o r = Ok res ->
+  1 <= i <= h -> 1 <= j <= w ->
+  let ii := if Nat.eqb R 1 then O else pos i in
+  let jj := if Nat.eqb C 1 then O else pos j in
+  ((ii < R)%nat /\ (jj < C)%nat ->
+     exists u v x, belem a ii jj = Some u /\ belem b ii jj = Some v /\ fixup u o v = Ok x
+                   /\ cse_member h w res i j = Ok (if is_blank x then VInt 0 else x))
+  /\ (~ ((ii < R)%nat /\ (jj < C)%nat) -> cse_member h w res i j = Ok excelutil.c_NA_ERROR).
+Proof. exact formula_op_member. Qed.
+Print Assumptions C13_formula_op_member.
+
+(* ---- the same for a lifted function (arbitrary wrapped f) *)
+Theorem C13_formula_fun_member :
+  forall (f : list pyval -> res pyval) (idx : nat -> bool) R C args fl a res h w i j,
+  (1 <= R)%nat -> (1 <= C)%nat ->
+  mapM (cse_flag idx) (enumerate 0 args) = Ok fl ->
+  Forall2 (arg_shape R C) fl args ->
+  first_true fl args = Some a ->
+  cse_wrapper f idx args = Ok res ->
+  1 <= i <= h -> 1 <= j <= w ->
+  let ii := if Nat.eqb R 1 then O else pos i in
+  let jj := if Nat.eqb C 1 then O else pos j in
+  ((ii < R)%nat /\ (jj < C)%nat ->
+     exists picked x, Forall2 (fun ba p => arg_at ii jj ba = Some p) (combine fl args) picked
+                      /\ f picked = Ok x /\ cse_member h w res i j = shown x)
+  /\ (~ ((ii < R)%nat /\ (jj < C)%nat) -> cse_member h w res i j = Ok excelutil.c_NA_ERROR).
+Proof. exact fun_member. Qed.
+Print Assumptions C13_formula_fun_member.
+
+(* ---- scalar error on the right of an array, exactly (completes
+   C13_op_scalar_error_right_partial by saying what the scalar operator gives
+   at the remaining positions): the fix-up returns the right error for the
+   whole array; the scalar operator gives the LEFT element where that is an
+   error itself, the right error elsewhere *)
+Theorem C13_op_scalar_error_right_exact : forall x o r,
+  scalar_like r = true -> in_error_codes r = Ok true ->
+  op_fixup (VTuple x) o r = Ok r /\
+  forall u, scalar_like u = true ->
+    exists e, in_error_codes u = Ok e /\ fixup u o r = Ok (if e then u else r).
+Proof. exact op_scalar_error_right_exact. Qed.
+Print Assumptions C13_op_scalar_error_right_exact.
+
+(* … and over a target every member shows that scalar error, also where the
+   array does not reach (known finding C13-scalar-error-short-circuit) *)
+Theorem C13_scalar_error_member : forall l o r res h w i j,
+  operand l -> operand r ->
+  (scalar_like l = true /\ in_error_codes l = Ok true /\ res = l) \/
+  ((exists x, l = VTuple x) /\ scalar_like r = true /\ in_error_codes r = Ok true /\ res = r) ->
+  1 <= i <= h -> 1 <= j <= w ->
+  op_fixup l o r = Ok res /\ cse_member h w res i j = Ok res.
+Proof. exact scalar_error_member. Qed.
+Print Assumptions C13_scalar_error_member.
